@@ -18,7 +18,7 @@ from . import core, gfi, gfi_run
 from .gfi import COEF, sel_mem
 
 HDR = ("From Coq Require Import List Bool ZArith NArith.\nFrom Gen Require Import SelGen.\n"
-       "From Model Require Import Key Sel GFI GFIEdit GFIRun.")
+       "From Model Require Import Key Sel GFI GFIEdit Derived GFIRun.")
 CACHE = core.VERIF / ".cache"
 
 
@@ -29,7 +29,7 @@ def tree_hash(seed, tier):
     h = hashlib.sha256()
     files = sorted((core.SRC / "genjax").rglob("*.py"))
     files += [core.VERIF / "harness" / f for f in ("gfi.py", "gfi_run.py", "bgfi.py")]
-    files += sorted((core.COQ / "model").glob("GFI*.v")) + [core.COQ / "model" / "Key.v", core.COQ / "model" / "Sel.v"]
+    files += sorted((core.COQ / "model").glob("GFI*.v")) + [core.COQ / "model" / f for f in ("Key.v", "Sel.v", "Derived.v")]
     for f in files:
         h.update(str(f).encode()); h.update(f.read_bytes())
     h.update(f"{seed}:{tier}".encode())
@@ -275,7 +275,8 @@ def val_eq(a, b):
 
 def oracle_C02(case, out):
     bad = []
-    for i, o in enumerate(traces_of(out)):
+    sg = [s["res"][1] if s["kind"] == "sim" else s["res"][1][0] for s in out["steps"] if s["kind"] in ("sim", "gen") and s["res"][0] == "ok"]
+    for i, o in enumerate(sg):
         r = ref_of(case, o)
         if r is None:
             continue
@@ -358,12 +359,137 @@ def oracle_C10(case, out):
 
 ORACLES = {"C01": oracle_C01, "C02": oracle_C02, "C03": oracle_C03, "C10": oracle_C10}
 
+
+# ---------------- edits ----------------
+def edits_of(out, kinds=None):
+    for s in out["steps"]:
+        if s["kind"] == "edit" and s["res"][0] == "ok" and (kinds is None or s["req"][0] in kinds):
+            yield s
+
+
+def req_constraints(q, pre=()):
+    """address -> value for the addresses an Update-like request constrains with a valid value"""
+    k = q[0]
+    if k == "update":
+        return {tuple(pre) + kk: v for kk, v in valid_entries(q[1]).items()}
+    if k == "static":
+        out = {}
+        for a, r in q[1]:
+            out.update(req_constraints(r, tuple(pre) + tuple(("s", x) for x in a)))
+        return out
+    if k == "index":
+        return req_constraints(q[2], tuple(pre) + (("i", q[1]),))
+    return {}
+
+
+def oracle_C05(case, out):
+    """Update: constrained addresses take the constraint, the others keep their value, weight = score change,
+    the backward request holds the previous values at the overwritten addresses and nothing else"""
+    bad = []
+    for s in edits_of(out, ("update",)):
+        new, old, w, bwd = s["res"][1]["trace"], s["old_obs"], s["res"][1]["weight"], s["res"][1]["bwd"]
+        cons = req_constraints(s["req"])
+        ln, lo = look_dict(new), look_dict(old)
+        for path, v in ln.items():
+            if path in cons:
+                if v != cons[path]:
+                    bad.append(("update: the new trace disagrees with the constraint", {"addr": list(path), "constraint": cons[path], "trace": v}))
+            elif path in lo and v != lo[path]:
+                bad.append(("update: an unconstrained choice changed", {"addr": list(path), "old": lo[path], "new": v}))
+        if w != new["score"] - old["score"]:
+            bad.append(("update: weight != new score - old score", {"weight": w, "new": new["score"], "old": old["score"], "req": s["req"]}))
+        if bwd["flat"] and not prog_has(case["prog"], ("switch", "or_else")):
+            lb = {tuple(tuple(c) for c in p): v for p, v in bwd["look"] if v is not None}
+            for path in cons:
+                if path in lo and path in ln and lb.get(path) != lo[path]:
+                    bad.append(("update: the backward constraint does not hold the previous value at an overwritten address",
+                                {"addr": list(path), "previous": lo[path], "backward": lb.get(path)}))
+            for path, v in lb.items():
+                if path not in cons:
+                    bad.append(("update: the backward constraint has a value at an address that was not overwritten", {"addr": list(path), "value": v}))
+    return bad
+
+
+def oracle_C06(case, out):
+    """applying the backward request with the original arguments restores choices, score, return value; weight negated.
+    Failures explained by a recorded finding carry its signature (third component)."""
+    bad = []
+    edits = [s for s in out["steps"] if s["kind"] == "edit"]
+    masky = prog_has(case["prog"], ("mask", "masked_iterate", "masked_iterate_final"))
+    for s in out["steps"]:
+        if s["kind"] != "bwd":
+            continue
+        if s["res"][0] == "err":
+            bad.append(("the backward request is not accepted by edit", {"request": s["req_kind"], "error": s["res"][1:]}))
+            continue
+        if s["res"][0] != "ok":
+            continue
+        fwd = edits[s["ei"]]
+        o, w = s["res"][1]
+        orig = s["orig_obs"]
+        sig = None
+        if masky and req_constraints(fwd["req"]):
+            sig = "mask-off-update-bwd"       # K25: an update constraining a choice under a mask that is off afterwards
+        if o["score"] != orig["score"] or not val_eq(norm(o["ret"]), norm(orig["ret"])) or look_dict(o) != look_dict(orig):
+            bad.append(("the backward request does not restore the original trace",
+                        {"request": fwd["req"], "args": fwd["args"], "old_args": fwd["old_args"],
+                         "restored": {"score": o["score"], "ret": o["ret"]}, "original": {"score": orig["score"], "ret": orig["ret"]},
+                         "choices_differ": sorted([list(k) for k in set(look_dict(o).items()) ^ set(look_dict(orig).items())], key=str)[:4]}, sig))
+        elif w != -s["fwd_weight"]:
+            bad.append(("backward weight != - forward weight", {"forward": s["fwd_weight"], "backward": w}, sig))
+    return bad
+
+
+def oracle_C07(case, out):
+    bad = []
+    for s in edits_of(out, ("regen",)):
+        new, old, w = s["res"][1]["trace"], s["old_obs"], s["res"][1]["weight"]
+        ln, lo = look_dict(new), look_dict(old)
+        for path, v in ln.items():
+            if path in lo and not sel_mem(s["req"][1], static_names(path)) and v != lo[path]:
+                bad.append(("regenerate changed an unselected choice", {"addr": list(path), "old": lo[path], "new": v, "sel": s["req"][1]}))
+        if w != new["score"] - old["score"]:
+            bad.append(("regenerate: weight != new score - old score", {"weight": w, "new": new["score"], "old": old["score"]}))
+        nothing = not any(sel_mem(s["req"][1], static_names(p)) for p in ln)
+        if nothing and s["args"] == s["old_args"] and (w != 0 or ln != lo or new["score"] != old["score"]):
+            bad.append(("regenerate with nothing selected and unchanged arguments is not the identity", {"weight": w}))
+    return bad
+
+
+def oracle_edit_ref(case, out):
+    """every edited trace still has the score / return value the program text defines (C01/C02 on edited traces:
+    scan remains the documented loop, masks stay inert, dimap recomputes pre/post ...)"""
+    bad = []
+    for s in edits_of(out):
+        o = s["res"][1]["trace"]
+        c2 = dict(case); c2["args"] = s["args"]
+        r = ref_of(c2, o)
+        if r is None:
+            continue
+        terms, rv = r
+        want = sum(logpdf(d, v, p) for (_, d, v, p) in terms)
+        if want != o["score"]:
+            bad.append(("after an edit: score != sum of the log-densities the program defines for the trace's choices and new arguments",
+                        {"req": s["req"], "args": s["args"], "score": o["score"], "reference": want}))
+        elif not val_eq(norm(rv), norm(o["ret"])):
+            bad.append(("after an edit: return value differs from the program text evaluated on the new choices and arguments",
+                        {"req": s["req"], "args": s["args"], "retval": o["ret"], "reference": rv}))
+    return bad
+
+
+def oracle_all(case, out):
+    return oracle_C01(case, out) + oracle_C02(case, out) + oracle_C03(case, out) + oracle_C10(case, out) + oracle_edit_ref(case, out)
+
+
+ORACLES.update({"C05": oracle_C05, "C06": oracle_C06, "C07": oracle_C07, "edit_ref": oracle_edit_ref, "all": oracle_all})
+
 # which step kinds a property's correspondence is about
 KINDS = {
     "C01": {"sim", "gen", "assess_own", "edit"},
     "C02": {"sim", "gen", "assess_own"},
     "C03": {"gen"},
     "C10": {"project"},
+    "C05": {"edit", "bwd"}, "C06": {"edit", "bwd"}, "C07": {"edit"},
 }
 # combinator-specific properties look at every step of the programs that contain the combinator
 CONTAINS = {
@@ -429,17 +555,26 @@ def run_property(ctx, pid, oracles=None, extra_cov=None):
                          f"program {json.dumps(cases[gi]['prog'])[:300]} implementation gives {json.dumps(st['res'], default=str)[:300]}",
                          case=None)
     # direct oracles
-    nor = 0
+    nor, nsig = 0, {}
     for name in (oracles or [pid]):
         fn = ORACLES.get(name)
         if not fn:
             continue
         for i in rel_cases:
-            for what, detail in fn(cases[i], outs[i]):
-                nor += 1
-                if nor <= 3:
-                    ctx.fail("oracle", f"{what}: {json.dumps(detail, default=str)[:400]} (program {json.dumps(cases[i]['prog'])[:200]})",
-                             case={"seed": cases[i]["seed"], "depth": (2 if (cases[i]['seed'] % 100000) % 3 else 3), "oracle": name, "what": what})
+            for fail in fn(cases[i], outs[i]):
+                what, detail = fail[0], fail[1]
+                sig = fail[2] if len(fail) > 2 else None
+                if sig:
+                    nsig[sig] = nsig.get(sig, 0) + 1
+                    if nsig[sig] > 1:
+                        continue
+                else:
+                    nor += 1
+                    if nor > 3:
+                        continue
+                ctx.fail("oracle", f"{what}: {json.dumps(detail, default=str)[:400]} (program {json.dumps(cases[i]['prog'])[:200]})",
+                         case={"seed": cases[i]["seed"], "depth": (2 if (cases[i]['seed'] % 100000) % 3 else 3), "oracle": name, "what": what},
+                         signature=sig)
     ctx.cov["evaluations"] = nrel
     ctx.cov["traces_validated_against_impl"] = nrel - nm
     ctx.cov["programs"] = ncases
@@ -461,10 +596,11 @@ def run_property(ctx, pid, oracles=None, extra_cov=None):
         samp.append({"program": cases[i]["prog"], "args": cases[i]["args"],
                      "steps": [{"kind": s["kind"], "res": s["res"]} for s in outs[i]["steps"][:3]]})
     ctx.add_samples(samp)
-    if known:
-        f = next((f for f in core.load_findings() if "zero-length-assess" in f.get("signatures", [])), None)
-        if f and pid in f.get("properties", []) and f["id"] not in [k["id"] for k in ctx.known_seen]:
-            ctx.known_seen.append(f)
+    sigs = {s["res"][1] for i in rel_cases for s in outs[i]["steps"] if s["res"][0] == "known"}
+    for f in core.load_findings():
+        if f["status"] == "known" and pid in f.get("properties", []) and sigs & set(f.get("signatures", [])):
+            if f["id"] not in [k["id"] for k in ctx.known_seen]:
+                ctx.known_seen.append(f)
     return res
 
 
@@ -477,7 +613,8 @@ def replay(case):
     c = json.loads(json.dumps(c, default=str))
     fn = ORACLES[case["oracle"]]
     bad = fn(c, o)
-    for what, detail in bad:
-        print(f"{what}: {json.dumps(detail, default=str)[:600]}")
+    bad = [b for b in bad if len(b) < 3 or not b[2]]
+    for b in bad:
+        print(f"{b[0]}: {json.dumps(b[1], default=str)[:600]}")
     print(f"program: {json.dumps(c['prog'])[:600]}")
     return not bad
